@@ -350,8 +350,20 @@ def decide(pid, pc, tier, seed, work, t0, finder_driver):
             json.dump(rep, open(rp, 'w'), indent=1)
             print('VIOLATION property=%s replay=%s obligation=%s no-failing-input-found' % (pid, rp, f['label']))
         rc = 1
+    printed = set()
     for (f, k) in known_hit:
         print('KNOWN-FINDING: property=%s %s: %s' % (pid, f['label'], k['what']))
+        printed.add(id(k))
+    # listed findings that no contract expresses (found by replay on the real code): still failing?
+    for k in known:
+        if id(k) in printed:
+            continue
+        still = finder_driver.witness_fails(pid, k, REPO)
+        if still:
+            print('KNOWN-FINDING: property=%s %s: %s' % (pid, k.get('class') or k.get('obligation'), k['what']))
+            known_hit.append((dict(label=k.get('class') or k.get('obligation')), k))
+        elif still is False:
+            print('NOTE: listed finding no longer reproduces on this tree: %s' % k['what'])
     for f in other_fail:
         print('NOTE: obligation %s failed in unit %s (attributed to %s, not to %s)' % (f['label'], f['unit'], ','.join(f['props']), pid))
     # thorough tier: run the finder even when all obligations were discharged
